@@ -42,8 +42,10 @@ def rexp(rnd, scope, fns, d=0):
     return J.call('arrayNew', *[rexp(rnd, scope, fns, d + 1) for _ in range(rnd.randint(0, 3))])
 
 
-def block(rnd, scope, fns, depth, inloop, infn, ctr):
+def block(rnd, scope, fns, depth, inloop, infn, ctr, may_be_empty=False):
     out = []
+    if may_be_empty and rnd.random() < 0.1:
+        return out          # an empty arm / loop body / else part
     for _ in range(rnd.randint(1, 3)):
         r = rnd.random()
         if depth <= 0 or r < 0.35:
@@ -61,11 +63,11 @@ def block(rnd, scope, fns, depth, inloop, infn, ctr):
             else:
                 out.append({'k': 'expr', 'e': {'k': 'grp', 'e': rexp(rnd, scope, fns)}})
         elif r < 0.6:
-            arms = [{'cond': cond(rnd, scope, depth), 'body': block(rnd, scope, fns, depth - 1, inloop, infn, ctr)}
+            arms = [{'cond': cond(rnd, scope, depth), 'body': block(rnd, scope, fns, depth - 1, inloop, infn, ctr, True)}
                     for _ in range(rnd.choice([1, 1, 2, 3]))]
             has_else = rnd.random() < 0.5
             out.append({'k': 'if', 'arms': arms, 'hasElse': has_else,
-                        'els': block(rnd, scope, fns, depth - 1, inloop, infn, ctr) if has_else else []})
+                        'els': block(rnd, scope, fns, depth - 1, inloop, infn, ctr, True) if has_else else []})
         elif r < 0.66:
             # while on a VALUE (any type), re-tested at the footer: runs twice when the value is truthy
             ctr[0] += 1
@@ -95,8 +97,8 @@ def block(rnd, scope, fns, depth, inloop, infn, ctr):
             src = rnd.choice([J.var('garr'), J.call('arrayNew', *[J.num(rnd.randint(0, 4)) for _ in range(rnd.randint(0, 3))]),
                               J.var(rnd.choice(scope))])
             out.append({'k': 'for', 'var': vv, 'idx': kv if withidx else '', 'e': src,
-                        'body': [{'k': 'expr', 'e': J.call('probe', J.num(rnd.randint(400, 499)), J.var(vv))}] +
-                        block(rnd, scope + [vv] + ([kv] if withidx else []), fns, depth - 1, True, infn, ctr)})
+                        'body': ([{'k': 'expr', 'e': J.call('probe', J.num(rnd.randint(400, 499)), J.var(vv))}] if rnd.random() < 0.9 else []) +
+                        block(rnd, scope + [vv] + ([kv] if withidx else []), fns, depth - 1, True, infn, ctr, True)})
     return out
 
 
